@@ -80,7 +80,7 @@ PROPS["C11"] = {
     "design_ref": "DESIGN.md section 1.3 and section 5, C11",
 }
 PROPS["C06"] = {
-    "units": {"polyvc": ["c06_edwards_gates"]},
+    "units": {"polyvc": ["c06_edwards_gates"], "kani": ["c06_mul_by_constant"]},
     "scope": "the three custom gates of the native (Jubjub) Edwards chip: doubling, conditional addition, curve membership",
     "not_decided": ["that the assignment code puts the right values in the queried cells and copies them correctly (region API)",
                     "scalar-multiplication loop structure, MSM, fixed-base tables", "every foreign-curve gate (secp256k1, BLS12-381 emulation)",
